@@ -111,6 +111,11 @@ class C20(Prop):
                         m = sum(e) / 3
                         e = [v - m for v in e]
                         e[1] = -e[0] - e[2]
+                    elif r < 0.5 and k.endswith('cE_gd'):
+                        # almost isotropic: the cosine of the lune co-latitude can exceed 1 by rounding
+                        sg_ = rng.choice([1.0, -1.0])
+                        eps = 10 ** rng.uniform(-12, -7)
+                        e = sorted([sg_ + eps * rng.gauss(0, 1) for _ in range(3)], reverse=True)
                     a = e
                 elif k.endswith('ctk_uv'):
                     a = [rng.uniform(-1, 1), rng.uniform(-1, 1)]
@@ -294,6 +299,8 @@ class C20(Prop):
             key = k
             if k.endswith('pol_prob_pdf') and case['args'][0] == 0:
                 key = 'pol_prob_pdf@zero-amplitude'
+            if k.endswith('cE_gd') and 'nan' in what and max(case['args']) - min(case['args']) < 1e-5 * max(abs(v) for v in case['args']):
+                key = 'cE_gd@near-isotropic'
             out.append((key, what, detail))
         return out
 
